@@ -2,6 +2,7 @@ import NLV.Driver.PubSub
 import NLV.Driver.Lines
 import NLV.Driver.Registrars
 import NLV.Driver.Aio
+import NLV.Driver.Commands
 
 def main (args : List String) : IO UInt32 := do
   match args with
@@ -9,4 +10,5 @@ def main (args : List String) : IO UInt32 := do
   | ["lines"] => NLV.Driver.Lines.main; return 0
   | ["reg"] => NLV.Driver.Reg.main; return 0
   | ["aio"] => NLV.Driver.Aio.main; return 0
+  | ["cmd"] => NLV.Driver.Cmd.main; return 0
   | _ => IO.eprintln "usage: nlvmodel <model>"; return 2
